@@ -2,12 +2,14 @@ package c20
 
 import (
 	"fmt"
+	"math"
 	"math/rand"
 
 	"github.com/aclements/go-moremath/fit"
 	"github.com/aclements/go-moremath/graph"
 	"github.com/aclements/go-moremath/graph/graphalg"
 	"github.com/aclements/go-moremath/graph/graphout"
+	"github.com/aclements/go-moremath/mathx"
 	"github.com/aclements/go-moremath/scale"
 	"github.com/aclements/go-moremath/stats"
 	"github.com/aclements/go-moremath/vec"
@@ -270,10 +272,14 @@ func catalogue() []entry {
 			useW := pair == 0 || pair == 2
 			deg := g.Range(0, 3)
 			xs := probeXs(g, 3)
-			return call{desc: fmt.Sprintf("fl[%d],fl[%d] weights=%v degree=%d", pair, pair+1, useW, deg), run: func(r *R) {
+			extreme := g.Chance(1, 3)
+			return call{desc: fmt.Sprintf("fl[%d],fl[%d] weights=%v extreme=%v degree=%d", pair, pair+1, useW, extreme, deg), run: func(r *R) {
 				var w []float64
 				if useW {
 					w = p.wts[pair]
+					if pair == 2 && extreme {
+						w = p.xwts
+					}
 				}
 				if len(p.fl[pair]) == 0 {
 					r.S("empty")
@@ -323,6 +329,82 @@ func catalogue() []entry {
 				r.F(vec.Sum(xs)).F(stats.Mean(xs)).F(stats.Variance(xs)).F(lo).F(hi).F(s.Sum()).F(s.Weight()).F(s.Mean())
 				m := vec.Map(func(x float64) float64 { return x * 0.5 }, xs)
 				r.F(vec.Sum(m)).F(s.Quantile(0.37))
+			}}
+		}),
+		E("scalar-distributions", []string{}, func(g simkit.G, p *pool) call {
+			// value-type distributions and special functions take no aggregate, but a
+			// package-level table or memo behind them is shared by every caller
+			n := g.Range(21, 250)
+			k := g.Range(0, n)
+			pr := 0.05 + 0.9*g.Unit()
+			x := 6*g.Unit() - 3
+			return call{desc: fmt.Sprintf("n=%d k=%d p=%v x=%v", n, k, pr, x), run: func(r *R) {
+				r.F(mathx.Choose(n, k)).F(mathx.Lchoose(n, k)).F(mathx.Choose(n%21, k%5))
+				b := stats.BinomialDist{N: n, P: pr}
+				r.F(b.PMF(float64(k))).F(b.CDF(float64(k)))
+				h := stats.HypergeometicDist{N: n, K: n / 2, Draws: n / 3}
+				r.F(h.PMF(float64(k % (n/3 + 1)))).F(h.CDF(float64(k % (n/3 + 1))))
+				ci := stats.QuantileCI(n, 0.5, 0.9)
+				r.I(ci.LoOrder).I(ci.HiOrder).F(ci.Confidence)
+				nd := stats.NormalDist{Mu: 1, Sigma: 2}
+				r.F(nd.PDF(x)).F(nd.CDF(x)).F(nd.InvCDF(pr))
+				td := stats.TDist{V: float64(n % 30)}
+				r.F(td.PDF(x)).F(td.CDF(x))
+				r.F(mathx.Beta(pr*3, 2)).F(mathx.BetaInc(pr, 2, 3)).F(mathx.GammaInc(2.5, pr*4)).F(mathx.GammaIncComp(2.5, pr*4))
+			}}
+		}),
+		E("equal-state", []string{}, func(g simkit.G, p *pool) call {
+			// two objects whose exported state is equal must answer alike, whatever
+			// private history led there (O2 for task-private objects)
+			a, b := p.fl[2], p.fl[4]
+			x := 20*g.Unit() - 5
+			which := g.Intn(3)
+			return call{desc: fmt.Sprintf("variant %d x=%v", which, x), run: func(r *R) {
+				switch which {
+				case 0:
+					// KDE: lazily fill Bandwidth on sample a, then point the same object at
+					// sample b; a fresh KDE with the same exported fields must agree
+					k := &stats.KDE{Sample: stats.Sample{Xs: append([]float64(nil), a...)}}
+					k.PDF(x)
+					k.Sample = stats.Sample{Xs: append([]float64(nil), b...), Weights: append([]float64(nil), p.wts[4]...)}
+					fresh := &stats.KDE{Sample: k.Sample, Kernel: k.Kernel, Bandwidth: k.Bandwidth, BoundaryMethod: k.BoundaryMethod, BoundaryMin: k.BoundaryMin, BoundaryMax: k.BoundaryMax}
+					if k.Bandwidth != 0 && !math.IsNaN(k.Bandwidth) {
+						p1, p2, c1, c2 := k.PDF(x), fresh.PDF(x), k.CDF(x), fresh.CDF(x)
+						r.F(p1).F(c1)
+						if math.Float64bits(p1) != math.Float64bits(p2) || math.Float64bits(c1) != math.Float64bits(c2) {
+							r.Fail("a KDE whose Bandwidth was filled lazily on one sample and whose Sample field was then replaced answers PDF=%v CDF=%v; a fresh KDE with identical exported fields answers PDF=%v CDF=%v", p1, c1, p2, c2)
+						}
+					}
+				case 1:
+					// histograms built by the same Adds answer alike, queries in between or not
+					h1, h2 := stats.NewLinearHist(-10, 20, 6), stats.NewLinearHist(-10, 20, 6)
+					for i, v := range a {
+						h1.Add(v)
+						h2.Add(v)
+						if i%3 == 0 {
+							stats.HistogramQuantile(h1, 0.1)
+							stats.HistogramIQR(h1)
+						}
+					}
+					q1, q2 := stats.HistogramQuantile(h1, 0.5), stats.HistogramQuantile(h2, 0.5)
+					r.F(q1)
+					if math.Float64bits(q1) != math.Float64bits(q2) {
+						r.Fail("two LinearHists built by the same Adds answer the median %v and %v (one was queried in between)", q1, q2)
+					}
+				default:
+					// StreamStats: reading statistics between Adds must not change later answers
+					var s1, s2 stats.StreamStats
+					for _, v := range b {
+						s1.Add(v)
+						s2.Add(v)
+						_ = s1.StdDev()
+						_ = s1.String()
+					}
+					r.F(s1.StdDev()).F(s1.Mean())
+					if math.Float64bits(s1.StdDev()) != math.Float64bits(s2.StdDev()) || s1 != s2 {
+						r.Fail("two StreamStats fed the same values differ (%v vs %v); one had its statistics read between Adds", s1.String(), s2.String())
+					}
+				}
 			}}
 		}),
 		E("vec", []string{"vec.Sum", "vec.Map", "vec.Vectorize", "vec.Concat"}, func(g simkit.G, p *pool) call {
